@@ -245,7 +245,7 @@ def run(chk, replay=None):
             if "rejected" in r:
                 chk.add("corpus_not_parseable")
             elif "source_panic" in r:
-                chk.report("panic:source:%s" % r["source_panic"]["panic"]["loc"].replace("/repo/", ""),
+                chk.report("panic:source:%s" % lib.norm_loc(r["source_panic"]["panic"]["loc"]),
                            "%s: producing the AST panics: %s" % (c.get("name"), r["source_panic"]["panic"]["msg"]), {"src": src, "case": c})
             else:
                 chk.add("traces_validated_against_impl")
